@@ -72,7 +72,7 @@ LEVEL_NOTE = (
 )
 RULE = (
     "case = (scenario, event index k, mode) or (scenario, 'complete') or (scenario, 'midtar'); all points of the dry-run "
-    "log are run. non-trivial = the injection fired after at least one mutating event, or the run is a full faulty/"
+    "log are run (quick tier: all rename/mkdir/tar points, a seeded sample of the others). non-trivial = the injection fired after at least one mutating event, or the run is a full faulty/"
     "good run whose scenario has a previous tree or a faulty server; distinct = (previous-state kind, server kind, "
     "headers, compression, force, event signature, occurrence, mode)"
 )
@@ -618,14 +618,23 @@ def run_midtar(ctx, world):
     follow_up(ctx, world, case, "killed inside the tar extraction")
 
 
-def run_scenario(ctx, lb, sc, idx):
+def run_scenario(ctx, lb, sc, idx, limit=None, pick=None):
     world = World(ctx.fresh_dir("w"), sc, lb, f"b{idx}")
     try:
         events = run_complete(ctx, world)
         ctx.count("scenarios")
         if events:
             ctx.count("events", len(events))
-            for k, mode in crash.points(events):
+            pts = crash.points(events)
+            if limit is not None and len(pts) > limit:
+                # deterministic slice of a finite space: every rename / mkdir / tar event, a sample of the bulk ones
+                # (download temp file, per-entry unlinks of the exit-time cleanup)
+                crit = ("os.rename", "os.mkdir", "subprocess.Popen")
+                keep = [p for p in pts if events[p[0] - 1]["ev"] in crit]
+                rest = [p for p in pts if events[p[0] - 1]["ev"] not in crit]
+                pick.shuffle(rest)
+                pts = sorted(keep + rest[: max(0, limit - len(keep))])
+            for k, mode in pts:
                 if ctx.out_of_time():
                     break
                 run_point(ctx, world, events, k, mode)
@@ -636,7 +645,7 @@ def run_scenario(ctx, lb, sc, idx):
         shutil.rmtree(world.top, ignore_errors=True)
 
 
-N_SCEN = {"quick": {"good": (10, 2), "bad": (6, 2)}, "thorough": {"good": (16, 12), "bad": (8, 12)}}  # (tasks, scenarios per task)
+N_SCEN = {"quick": {"good": (8, 1), "bad": (5, 1)}, "thorough": {"good": (16, 12), "bad": (8, 12)}}  # (tasks, scenarios per task)
 
 
 def plan(tier, seed):
@@ -677,9 +686,14 @@ def run_task(ctx, task, grp, n, part):
         warm_up(ctx, lb)
         counter = [0]
 
+        import random
+
+        pick = random.Random(ctx.seed * 7919 + part * 101 + (0 if grp == "good" else 50))
+        limit = 18 if ctx.tier == "quick" else None
+
         def one(sc):
             counter[0] += 1
-            run_scenario(ctx, lb, sc, counter[0])
+            run_scenario(ctx, lb, sc, counter[0], limit, pick)
 
         if grp == "good":
             core.hyp_run(ctx, scenario_strategy(GOOD), one, n, chunk=n, seed_salt=part * 13)
